@@ -461,12 +461,19 @@ def _disjoint(fields):
     """
     Return fields as a disjoint set.
     """
-    for m, n in combinations(range(len(fields)), 2):
-        if lentil.extent.intersect(fields[m]['extent'], fields[n]['extent']):
-            fields[m]['field'].extend(fields[n]['field'])
-            fields[m]['extent'] = boundary(fields[m]['field'])
-            fields.pop(n)
-            return _disjoint(fields)
+    # merge the first intersecting pair and rescan, until no pair intersects
+    # (a loop rather than one recursive call per merge, so the number of
+    # fields is not limited by the interpreter's recursion depth)
+    merged = True
+    while merged:
+        merged = False
+        for m, n in combinations(range(len(fields)), 2):
+            if lentil.extent.intersect(fields[m]['extent'], fields[n]['extent']):
+                fields[m]['field'].extend(fields[n]['field'])
+                fields[m]['extent'] = boundary(fields[m]['field'])
+                fields.pop(n)
+                merged = True
+                break
     return fields
 
 
